@@ -29,6 +29,7 @@ type cfg struct {
 	arbitrary bool   // timers may fire at any point
 	cliCancel bool   // the client side's user may cancel while the client waits for the server's hello
 	reapprove bool   // trust is there from the start and the server's user approves once more at any moment (registering a known service again)
+	oddIDs    bool   // SHIP IDs with quote, brackets and a trailing backslash
 }
 
 func (c cfg) name() string {
@@ -42,6 +43,9 @@ func (c cfg) name() string {
 	}
 	if c.reapprove {
 		n += "/reapprove"
+	}
+	if c.oddIDs {
+		n += "/oddids"
 	}
 	return n
 }
@@ -76,7 +80,16 @@ type world struct {
 	cliCancel   bool   // the user on the client side cancelled while the client was waiting for the server's hello
 }
 
-const cliID, srvID = "ship-client", "ship-server"
+// the SHIP IDs of the two endpoints; a configuration with oddIDs uses identifiers that need care on the wire (SHIP IDs
+// are arbitrary strings: quote, brackets, a backslash as the last character)
+var cliID, srvID = "ship-client", "ship-server"
+
+func setIDs(odd bool) {
+	cliID, srvID = "ship-client", "ship-server"
+	if odd {
+		cliID, srvID = "cli\"[{ent}],\\", "[{\"srv\":[]}]\\"
+	}
+}
 
 func newEnd(name string, server bool, p *shipx.Provider, localID, peerKnownID string) *end {
 	e := &end{name: name, L: &shipx.Log{Name: name}, spawnGen: map[int]uint64{}}
@@ -116,6 +129,7 @@ func (e *end) complete() bool                        { return e.state() == model
 func newWorld(c cfg) *world {
 	simrt.ClearTraceHooks()
 	w := &world{c: c}
+	setIDs(c.oddIDs)
 	sp := &shipx.Provider{Paired: c.trust == "paired", AutoAccept: c.trust == "auto", AllowWaiting: c.srvAllow}
 	cp := &shipx.Provider{Paired: true, AllowWaiting: c.cliAllow}
 	srvKnows, cliKnows := "", ""
@@ -449,6 +463,10 @@ func configs(r *hx.Run) []cfg {
 						// the same with a client-side user who may withdraw (timely mode, waiting allowed on both sides)
 						if !arb && sa && ca && ids == "none" && (tr == "paired" || tr == "approve" || r.Thorough()) {
 							out = append(out, cfg{trust: tr, srvAllow: sa, cliAllow: ca, ids: ids, arbitrary: arb, cliCancel: true})
+						}
+						// SHIP IDs that need care on the wire
+						if !arb && sa && ca && (ids == "none" || ids == "both") && (tr == "paired" || tr == "approve" && r.Thorough()) {
+							out = append(out, cfg{trust: tr, srvAllow: sa, cliAllow: ca, ids: ids, arbitrary: arb, oddIDs: true})
 						}
 						// trust from the start plus a redundant approval at any moment
 						if sa && ca && ids == "none" && (tr == "paired" && !arb || (tr == "paired" || tr == "auto") && r.Thorough()) {
